@@ -194,6 +194,35 @@ if $t not in $map:
 """)
     fs = [e_ for e_ in fs if any(isinstance(q, ast.For) for q in _ancestors(e_["@node"]))]
     if not fs:
+        # the same by case (pta/symrun.py), however the test is written (`if t in map:
+        # continue`): a tag already in the map changes nothing; a new one is stored
+        # under the current counter and the counter advances by one
+        import re
+        from pta import symrun
+        for loop in ast.walk(fd):
+            if not (isinstance(loop, ast.For) and isinstance(loop.target, ast.Name)):
+                continue
+            try:
+                tbl_ = symrun.table(loop.body, lambda t: None)
+            except AnalysisError:
+                continue
+            if len(tbl_) != 2:
+                continue
+            row = {}
+            for cs, ev in tbl_.items():
+                cs = list(cs)
+                mm = re.fullmatch(re.escape(loop.target.id) + r" in (\w+)", cs[0][0]) \
+                    if len(cs) == 1 else None
+                if mm:
+                    row[cs[0][1]] = (mm.group(1), [e for e in ev if e[0] != "exit"])
+            if set(row) != {True, False} or row[True][1]:
+                continue
+            mp, ev = row[False]
+            if len(ev) == 2 and ev[0][0] == "store" and ev[0][1] == mp \
+                    and ev[0][2] == loop.target.id and ev[1] == ("aug", ev[0][3], "Add", "1"):
+                fs.append({"$t": loop.target.id, "$map": mp, "$next": ev[0][3],
+                           "@node": loop})
+    if not fs:
         # ... or in two passes: the distinct tags first, in order of first appearance
         # (dict.fromkeys keeps it; a set would not), then numbered consecutively
         for e_ in find(fd, """
@@ -400,6 +429,14 @@ for $sid, $snode in $g.local_send_id_to_send_node.items():
                    "$g.local_send_id_to_send_node.items() if $a in $dep($snode.data)), "
                    "default=$top) for $a in $arrs}")
     got = acc or comp
+    if not got:
+        # the send's part held in a local (`p = c2p[sid]` ... min(t[a], p))
+        got = find(m.expand_locals(m.inlined(f), only="subscripts"), """
+$t = dict.fromkeys($arrs, $top)
+for $sid, $snode in $g.local_send_id_to_send_node.items():
+    for $a in $dep($snode.data):
+        $t[$a] = min($t[$a], $c2p[$sid])
+""")
     c.check(len(got) == 1, "R09-PLACEMENT", name, "first-dependent-send-is-a-minimum", where,
             "the part bound of a stored array is not the minimum, over all sends whose data "
             "depends on it, of the send's part (starting from the number of parts): with "
